@@ -116,3 +116,13 @@ Fixpoint rmism_from (i : N) (l : list reqcase) : list N :=
   | c :: r => if reqcase_ok c then rmism_from (i + 1) r else i :: rmism_from (i + 1) r
   end.
 Definition req_mismatches (l : list reqcase) : list N := rmism_from 0 l.
+
+(* ---- hook order cases (C10): which classes' own savorize hooks run, in order, for a node loaded as class c ---- *)
+Record savcase := { sv_specs : list cls_spec; sv_class : ustring; sv_expect : list ustring }.
+Fixpoint ulist_eqb (a b : list ustring) : bool :=
+  match a, b with [], [] => true | x :: r, y :: r' => ueqb x y && ulist_eqb r r' | _, _ => false end.
+Definition savcase_ok (c : savcase) : bool :=
+  ulist_eqb (savorize_order (interp_reg [] (sv_specs c)) FUELK (sv_class c)) (sv_expect c).
+Fixpoint smism_from (i : N) (l : list savcase) : list N :=
+  match l with [] => [] | c :: r => if savcase_ok c then smism_from (i + 1) r else i :: smism_from (i + 1) r end.
+Definition sav_mismatches (l : list savcase) : list N := smism_from 0 l.
